@@ -97,12 +97,21 @@ def degenerate (u : ObsView) : Bool := u.ch == 0 || u.cap == 0 || u.len == 0
 def tagDegenerate (u : ObsView) (props : List String) : List String :=
   if degenerate u then props ++ ["C20"] else props
 
-def mk (props : List String) (clause detail : String) (ok : Bool) : List Fail :=
-  if ok then [] else props.map fun p => (p, clause, detail)
-
 /-- storage windows `[off, off+cap)` of two views overlap -/
 def overlaps (a b : ObsView) : Bool :=
   a.cap > 0 && b.cap > 0 && a.blk == b.blk && a.off < b.off + b.cap && b.off < a.off + a.cap
+
+/-- the storage of view `vid` is shared with another live view: that only comes about through `Slice`, whose property
+(C02: "a write through either is seen through the other") then also speaks about stores through `vid` -/
+def sharesStorage (a : Views) (vid : Int) (u : ObsView) : Bool :=
+  (List.range a.size).any fun w =>
+    (w : Int) != vid && (match view a w with | some o => overlaps u o | none => false)
+
+def tagShared (a : Views) (vid : Int) (u : ObsView) (props : List String) : List String :=
+  if sharesStorage a vid u && !props.contains "C02" then props ++ ["C02"] else props
+
+def mk (props : List String) (clause detail : String) (ok : Bool) : List Fail :=
+  if ok then [] else props.map fun p => (p, clause, detail)
 
 /-- readable window of `s` overlaps the spare capacity of `d` -/
 def srcOverlapsSpare (d s : ObsView) : Bool :=
@@ -170,7 +179,7 @@ def check (op : OpObs) (pre post : Views) (seen : Array Bool) : List Fail :=
     match view pre vid with
     | none => []
     | some u =>
-      let props := tagDegenerate u ["C04", "C12"]
+      let props := tagShared pre vid u (tagDegenerate u ["C04", "C12"])
       mk props "appendSample-no-panic" s!"outcome={outcome}" (outcome == "ok") ++
       (if u.len == u.cap then frameFails props "appendSample-full-noop" pre post seen []
        else frameFails props "appendSample-store" pre post seen [(u.blk, u.off + u.len, v)]
@@ -182,7 +191,7 @@ def check (op : OpObs) (pre post : Views) (seen : Array Bool) : List Fail :=
     | some u =>
       if 0 ≤ i ∧ i < u.len then
         mk ["C12"] "set-ok" s!"i={i} outcome={outcome}" (outcome == "ok") ++
-        frameFails ["C12"] "set-visible-exactly" pre post seen [(u.blk, u.off + i.toNat, v)] (detail := s!"i={i} v={v}")
+        frameFails (tagShared pre vid u ["C12"]) "set-visible-exactly" pre post seen [(u.blk, u.off + i.toNat, v)] (detail := s!"i={i} v={v}")
       else
         mk ["C12"] "set-index-panics" s!"i={i} len={u.len} outcome={outcome}" (isPanicOutcome outcome) ++
         frameFails ["C12"] "set-panic-unchanged" pre post seen []
